@@ -5,6 +5,7 @@ import (
 	"fmt"
 	"os"
 	"path/filepath"
+	"sort"
 	"strings"
 
 	"github.com/grafana/cog/internal/ast"
@@ -17,6 +18,7 @@ import (
 	"github.com/grafana/cog/internal/jennies/python"
 	"github.com/grafana/cog/internal/jennies/typescript"
 	"github.com/grafana/cog/internal/languages"
+	"github.com/grafana/cog/internal/tools"
 	"github.com/grafana/cog/internal/veneers/rewrite"
 	cogyaml "github.com/grafana/cog/internal/yaml"
 	"gopkg.in/yaml.v3"
@@ -115,8 +117,12 @@ func (pipeline *Pipeline) interpolateParameters() {
 func (pipeline *Pipeline) interpolate(input string) string {
 	interpolated := input
 
-	for key, value := range pipeline.Parameters {
-		interpolated = strings.ReplaceAll(interpolated, "%"+key+"%", value)
+	// sorted: parameters may mention each other, the result must not depend on map iteration order
+	keys := tools.Keys(pipeline.Parameters)
+	sort.Strings(keys)
+
+	for _, key := range keys {
+		interpolated = strings.ReplaceAll(interpolated, "%"+key+"%", pipeline.Parameters[key])
 	}
 
 	return interpolated
